@@ -105,6 +105,12 @@ func (db *DB) Close() {
 	defer atomic.StoreUint32(&db.state, uint32(StateClosed))
 	db.closeC <- struct{}{}
 
+	// the flusher drains its queue first: memtables must reach the sstables in the order
+	// they were frozen.  Otherwise a crash could leave the wal of an older memtable behind
+	// while a newer one is already a table, and recovery would serve the replayed (older)
+	// versions from the memtable before the newer ones in the table.
+	<-db.closed
+
 	mt := db.memtable
 	mt.freeze()
 	if mt.size() > 0 {
@@ -114,8 +120,6 @@ func (db *DB) Close() {
 			db.logger.Warnf("failed to delete immutable wal file: %v", err)
 		}
 	}
-
-	<-db.closed
 }
 
 func (db *DB) View(fn TxnFunc) error {
